@@ -500,6 +500,11 @@ def f_servers_security(d):
     d["security"] = [{"bearer": []}]
 
 
+def f_zz_no_operations(d):
+    """A document without any operation (valid OpenAPI: `paths: {}`); sorts last, so it also empties other features' paths."""
+    d["paths"] = {}
+
+
 FEATURES: dict[str, Callable[[dict], None]] = {k[2:]: v for k, v in list(globals().items()) if k.startswith("f_") and callable(v)}
 
 
